@@ -162,3 +162,48 @@ PROPS["C20"]["parts"] = ["c20_crossbuild"]
 PROPS["C20"]["needs_gen"] = ["kernels", "asm", "facts"]
 PROPS["C20"]["trusted_extra"] = ["opcode semantics of the 9 amd64 / 8 arm64 opcodes used (EdVerif/Asm/Sem.lean) and the assembly tokenizer tools/go2lean/asm.go; "
                                  "the arm64 routine cannot be executed in this sandbox (model + theorem only)"]
+
+TRANSLATORS_SSA_NOTE = ("T2 printer tools/go2lean/ssa.go (golang.org/x/tools/go/ssa, purego build so that every function has a body) and the "
+                        "meaning given to SSA instructions by the checkers in EdVerif/Ssa/*.lean; the checkers' soundness w.r.t. an execution semantics "
+                        "is argued in DESIGN.md, not yet a Lean theorem")
+
+for _pid in ("C03", "C18"):
+    PROPS[_pid].pop("unclaimed", None)
+
+PROPS["C03"].update(dict(
+    level="proof", modules=["EdVerif.Props.Structural.Ct", "EdVerif.Props.C20"], parts=["ssa_sites", "c03_dynamic"], needs_gen=["ssa", "asm"],
+    text=("Lean theorem, re-proved on every run by kernel evaluation over the SSA regenerated from /repo (both packages, 118 functions): the information-flow "
+          "checker ctCheck accepts every function reachable from the constant-time entry points with exactly the policy's exemptions (VarTime, decoder validity "
+          "decisions, the discharged signedRadix16 guard) plus the recorded known finding, and the residual without the known finding is exactly that finding; "
+          "the amd64/arm64 assembly is straight-line with addresses from pointer arguments only (C20_ct). What is proved is the checker's verdict on the SSA model; "
+          "its soundness w.r.t. a leakage semantics is argued, not yet mechanised. A secret-dependent branch found by the checker is confirmed on the real code by "
+          "comparing basic-block execution counts of two runs that differ only in secrets."),
+    technique="Lean 4 kernel-evaluated information-flow check over regenerated SSA + execution-trace comparison",
+    trusted_extra=[TRANSLATORS_SSA_NOTE, "below SSA: Go compiler instruction selection, CPU timing"], gen=None))
+PROPS["C03"].pop("gen", None)
+
+PROPS["C18"].update(dict(
+    level="other", modules=["EdVerif.Props.C18", "EdVerif.Props.Structural.Globals"], parts=["ssa_sites", "c18_race"], needs_gen=["ssa"],
+    text=("Partial by nature: (1) Lean proof for ALL schedules and thread sets of the abstract sync.Once protocol (at most one build, no two conflicting accesses "
+          "enabled together, readers see the complete table) and of the unsafety of the flag protocol; (2) Lean-checked facts F1-F4 on the regenerated SSA tying "
+          "the code to that protocol (globals written only in init and in the two Once closures; table pointers obtained only through the accessor that calls Do; "
+          "other globals never stored through; no go/chan/unsafe/other sync); (3) cold-process -race runs with simultaneous first use. The Go memory model and the "
+          "real sync.Once are assumed by contract - no model here can exhibit them."),
+    technique="Lean 4 proof of abstract Once protocol + Lean-checked SSA facts + race-detector runs",
+    explanation=("abstract protocol theorem C18_once_safe (all schedules); SSA facts globalsDiscipline_ok; race-detector runs are supporting evidence for the runtime part"),
+    trusted_extra=[TRANSLATORS_SSA_NOTE, "sync.Once contract, Go memory model"]))
+
+PROPS["C11"]["modules"] = ["EdVerif.Props.C11", "EdVerif.Props.Structural.Writes"]
+PROPS["C11"]["parts"] = ["ssa_sites"]
+PROPS["C11"]["needs_gen"] = ["kernels", "ssa"]
+PROPS["C11"]["trusted_extra"] = [TRANSLATORS_SSA_NOTE]
+PROPS["C14"].update(dict(modules=["EdVerif.Props.Structural.ErrorPaths"], parts=["ssa_sites"], needs_gen=["kernels", "ssa"], trusted_extra=[TRANSLATORS_SSA_NOTE],
+    text="Lean-checked SSA path predicate on the regenerated code (no store to the receiver / input on any path to a nil-returning exit; other exits return the receiver) + " + CORR,
+    technique="Lean 4 checked SSA path predicate + model theorem + correspondence (receiver/input snapshots)"))
+PROPS["C15"].update(dict(modules=["EdVerif.Props.Structural.Guards"], parts=["ssa_sites"], needs_gen=["kernels", "ssa"], trusted_extra=[TRANSLATORS_SSA_NOTE],
+    text="Lean-checked SSA dominance predicate on the regenerated code (checkInitialized / length test dominate every use of the Point parameters) + " + CORR,
+    technique="Lean 4 checked SSA dominance predicate + model theorem + correspondence (panic classes)"))
+PROPS["C19"].update(dict(modules=["EdVerif.Props.Structural.Returns", "EdVerif.Props.Structural.Globals"], parts=["ssa_sites"], needs_gen=["kernels", "ssa"],
+    trusted_extra=[TRANSLATORS_SSA_NOTE],
+    text="Lean-checked SSA provenance predicates on the regenerated code (returned pointers/slices derive from allocations made in the call; no global is written outside init/Once) + mutate-and-recall " + CORR,
+    technique="Lean 4 checked SSA freshness/no-global-store predicates + mutate-and-recall correspondence"))
